@@ -4,7 +4,7 @@ from props.regcommon import RB, entries
 from props.hist import prehistory
 
 ID = "C04"
-THEOREMS = [("FlatModel.Props.C04", t) for t in ("FC.issued_reads", "FC.C04.string_reads_pushed", "FC.C04.single_unsafe",
+THEOREMS = [("FlatModel.Props.C04", t) for t in ("FC.issued_reads", "FC.C04.string_reads_pushed", "FC.C04.string_reads_pushed'", "FC.C04.single_unsafe",
                                                   "FC.C04.string_write_paths_are_utf8", "FC.C04.storage_is_private")]
 LEAN_TARGETS = ["FlatModel.Generated.Covered"]
 PROFILES = {"quick": ["checked"], "thorough": ["checked", "wrapping"], "search": ["checked"]}
